@@ -16,6 +16,8 @@ import json
 import os
 import sys
 
+import re
+
 from .. import facts, nullness, expr as X
 from ..report import Check, canon
 from ..facts import VERIF, AnalysisBroken
@@ -73,6 +75,9 @@ def fatal_cannot_return(prog, chk):
                   "carry on with the NULL object" % bad,
            loc=fn.loc(fn.body), proof="%d noreturn call(s); exit block has no fall-through predecessor" % nore)
     return not bad and nore > 0
+
+
+n_undecided_g2 = [0]
 
 
 def run(tier="quick", mktable=False):
@@ -153,6 +158,12 @@ def run(tier="quick", mktable=False):
         bad = [v for v in vals if v != want]
         if want == "noreturn":
             bad = vals
+        # a returned local whose value a helper computed (through an out-parameter) is not a known different value: only
+        # constants (and NULL / a recognisable other expression) can contradict the table
+        undec = [v for v in bad if re.fullmatch(r"\$L\d+", str(v))]
+        bad = [v for v in bad if v not in undec]
+        if undec and not bad:
+            n_undecided_g2[0] += 1
         if bad:
             n = [n for n, v in r.returns if v in bad][0]
             chk.ob("G2", name, "fail-value(%s)" % pn, False, loc=f.loc(n),
